@@ -102,9 +102,11 @@ impl<T: ?Sized> Mutex<T> {
                             self.unlock();
                         }
                     }
-                    // we ignore the cancel, just to wait the actual event
+                    // we ignore the cancel, but our place in the queue is given up by
+                    // the release registered above (whoever pops it passes the lock on,
+                    // and the wake-up token may be consumed already): queue up again
                     if b_ignore {
-                        continue;
+                        return self.lock();
                     }
 
                     // now we can safely go with the cancel panic
